@@ -7,7 +7,9 @@
 (*   [cfg    |-> Logix configuration (LogixOps),                             *)
 (*    pers   |-> device personality: [k |-> "any"] | [k |-> "simple"] | [k |-> "path", segs |-> route],  *)
 (*    mem0   |-> initial memory,                                             *)
-(*    frames |-> sequence of client frames]                                  *)
+(*    frames |-> sequence of client frames,                                  *)
+(*    limit  |-> (optional) the server's request size limit: an encapsulated  *)
+(*               payload LONGER than this many octets is refused]             *)
 (* A frame is [kind, sess, ctx, wrap, route, tmo, req]:                       *)
 (*   kind \in {"register","unregister","listservices","listidentity","listinterfaces","rr","badcmd",        *)
 (*             "fwdopen","fwdclose" (SendRRData carrying a Forward Open / Close: extra field fo, CIPWire),   *)
@@ -73,10 +75,16 @@ UnitReply(f, cid, cip) == EncEnip(CmdSendUnit, f.sess, 0, f.ctx, 0, EncSendData(
 \* an error frame: non-zero encapsulation status, request's command / session handle / context
 ErrFrame(f, b) == Echo(f, b) /\ HSess(b) = f.sess /\ HStat(b) # <<0, 0, 0, 0>>
 
+\* the request size limit (option --size): the encapsulated payload (everything after the 24-octet header) of a frame may be
+\* as long as the limit, not longer; an oversize request is not processed at all and answered by an error frame (which ends the session)
+PayloadLen(SC, f) == Len(FrameBytes(SC.cfg, f)) - 24
+Oversize(SC, f) == "limit" \in DOMAIN SC /\ PayloadLen(SC, f) > SC.limit
+
 \* May the request processing of frame f, in memory m, be answered by reply b -- and with which memories after?
 \* Result: set of [mem, close]; empty = reply not allowed.
 ReplyOutcomes(SC, m, f, b) ==
-  CASE f.kind = "register" ->
+  CASE Oversize(SC, f) -> IF ErrFrame(f, b) THEN { [mem |-> m, close |-> TRUE] } ELSE {}
+    [] f.kind = "register" ->
          IF Echo(f, b) /\ HStat(b) = <<0, 0, 0, 0>> /\ HSess(b) # <<0, 0, 0, 0>> /\ SubSeq(b, 25, Len(b)) = RegisterPayload
          THEN { [mem |-> m, close |-> FALSE] } ELSE {}
     [] f.kind \in {"listservices", "listidentity", "listinterfaces"} ->
@@ -128,7 +136,8 @@ EncOut(C, r, o) ==
     [] o.k = "err" -> EncPlainReply(svc, o.st, o.ext)
     [] o.k = "anyfail" -> EncPlainReply(svc, 5, <<0>>)
 RepliesOf(SC, m, f) ==
-  CASE f.kind = "register" -> { EncEnip(CmdRegister, <<1, 0, 0, 0>>, 0, f.ctx, 0, RegisterPayload) }
+  CASE Oversize(SC, f) -> { EncEnip(KindCmd(f.kind), f.sess, 101, f.ctx, 0, <<>>) }
+    [] f.kind = "register" -> { EncEnip(CmdRegister, <<1, 0, 0, 0>>, 0, f.ctx, 0, RegisterPayload) }
     [] f.kind \in {"listservices", "listidentity", "listinterfaces"} -> { EncEnip(KindCmd(f.kind), f.sess, 0, f.ctx, 0, <<0, 0>>) }
     [] f.kind = "rr" /\ ~RouteAccepted(SC.pers, f) -> { EncEnip(CmdSendRR, f.sess, 8, f.ctx, 0, <<>>) }
     [] f.kind = "rr" /\ f.req.svc # "multi" ->
